@@ -340,3 +340,58 @@ func VerifC15Counts() {
 	verifAssert(left == 0, "goroutine-left-blocked-after-message")
 	verifReach("done")
 }
+
+func init() {
+	verifHarnesses["VerifC15TxCounts"] = VerifC15TxCounts
+}
+
+// VerifC15TxCounts: a transaction (in a tx message, or as the first transaction of a requested
+// block) whose input count is any value in any varint encoding, followed by a few arbitrary bytes:
+// the process keeps running (a decoder panic costs the connection only) and allocations are not
+// sized from the declared count.
+func VerifC15TxCounts() {
+	e := newNetEnv(true)
+	e.makeReady()
+	tx := nondetBytes("version", 4)
+	switch pick("varint-size", 4) {
+	case 0:
+		b := nondetU8("count8")
+		verifAssume(b < 0xfd)
+		tx = append(tx, b)
+	case 1:
+		tx = append(append(tx, 0xfd), nondetBytes("count16", 2)...)
+	case 2:
+		tx = append(append(tx, 0xfe), nondetBytes("count32", 4)...)
+	case 3:
+		tx = append(append(tx, 0xff), nondetBytes("count64", 8)...)
+	}
+	tail := pick("tail", verifParam("maxtail", 2)+1)
+	tx = append(tx, nondetBytes("rest", tail)...)
+	var cmd string
+	var payload []byte
+	if nondetBool("inside-requested-block") {
+		header := &wire.BlockHeader{Version: 1, Timestamp: 1600000000, Bits: 0x1d00ffff, Nonce: 11}
+		hash := *header.BlockHash()
+		e.node.RequestBlock(e.ctx, hash, func(ctx contextT, hd *wire.BlockHeader, c uint64, ch <-chan *wire.MsgTx) error {
+			for range ch {
+			}
+			return nil
+		}, func(contextT) {})
+		e.drainOutgoing()
+		var buf bytesBuffer
+		header.Serialize(&buf)
+		payload = append(buf.Bytes(), 1) // one transaction announced
+		payload = append(payload, tx...)
+		cmd = wire.CmdBlock
+	} else {
+		cmd, payload = wire.CmdTx, tx
+	}
+	e.conn.in = frameMsg(cmd, payload, nondetBool("extended"))
+	verifSetAllocBudget(len(e.conn.in) + 65536)
+	err := e.node.handleMessage(e.ctx, e.conn)
+	left := verifQuiesce()
+	verifAllocDone()
+	verifObserve("txcounts", cmd, len(payload), err == nil)
+	verifAssert(left == 0, "goroutine-left-blocked-after-message")
+	verifReach("done")
+}
